@@ -3,6 +3,8 @@ package model
 import (
 	"fmt"
 	"strconv"
+
+	"github.com/youzan/ZanRedisDB/rockredis"
 )
 
 // C09: model-free identities. Every function reads the implementation only.
@@ -78,6 +80,12 @@ func (r *runner) ident(tk touchKey) (fails *identFail, size int64) {
 			r.st.NonEmptyPairs[tk.typ+"/"+which] = true
 		}
 	}
+	// collections above the bulk-read limit (doc/user-guide.md:10, 5000): the
+	// enumerating commands refuse them, the identities that remain are the
+	// scan chain total (LRANGE windows for a list) and *KEYEXIST
+	if f, n, big := r.identBig(tk, bad, ev); big {
+		return f, n
+	}
 	switch tk.typ {
 	case "hash":
 		n, ok := asInt(r.rd("hlen", t, k))
@@ -112,7 +120,7 @@ func (r *runner) ident(tk touchKey) (fails *identFail, size int64) {
 		if ex, _ := asInt(r.rd("hkeyexist", t, k)); (ex == 1) != (n > 0) {
 			return bad("hkeyexist-vs-hlen", "HKEYEXIST=%d but HLEN=%d", ex, n), n
 		}
-		for i := 0; i+1 < len(all); i += 2 {
+		for i := 0; i+1 < len(all); i += 2 * reachStep(len(all)/2) {
 			ev("hget-reaches", true)
 			g := r.rd("hget", t, k, all[i])
 			if g.Kind != "bulk" || string(g.Bulk) != all[i+1] {
@@ -162,7 +170,8 @@ func (r *runner) ident(tk touchKey) (fails *identFail, size int64) {
 		if ex, _ := asInt(r.rd("skeyexist", t, k)); (ex == 1) != (n > 0) {
 			return bad("skeyexist-vs-scard", "SKEYEXIST=%d but SCARD=%d", ex, n), n
 		}
-		for _, mb := range ms {
+		for i := 0; i < len(ms); i += reachStep(len(ms)) {
+			mb := ms[i]
 			ev("sismember-reaches", true)
 			if x, _ := asInt(r.rd("sismember", t, k, mb)); x != 1 {
 				return bad("sismember-unreachable", "SMEMBERS lists %q but SISMEMBER=0", mb), n
@@ -201,7 +210,8 @@ func (r *runner) ident(tk touchKey) (fails *identFail, size int64) {
 		if ex, _ := asInt(r.rd("lkeyexist", t, k)); (ex == 1) != (n > 0) {
 			return bad("lkeyexist-vs-llen", "LKEYEXIST=%d but LLEN=%d", ex, n), n
 		}
-		for i, e := range es {
+		for i := 0; i < len(es); i += reachStep(len(es)) {
+			e := es[i]
 			ev("lindex-reaches", true)
 			g := r.rd("lindex", t, k, strconv.Itoa(i))
 			if g.Kind != "bulk" || string(g.Bulk) != e {
@@ -255,7 +265,7 @@ func (r *runner) ident(tk touchKey) (fails *identFail, size int64) {
 		if ex, _ := asInt(r.rd("zkeyexist", t, k)); (ex == 1) != (n > 0) {
 			return bad("zkeyexist-vs-zcard", "ZKEYEXIST=%d but ZCARD=%d", ex, n), n
 		}
-		for i := 0; i+1 < len(ws); i += 2 {
+		for i := 0; i+1 < len(ws); i += 2 * reachStep(len(ws)/2) {
 			ev("zscore-agrees", true)
 			g := r.rd("zscore", t, k, ws[i])
 			if g.Kind != "bulk" || !floatEq(string(g.Bulk), ws[i+1]) {
@@ -320,4 +330,60 @@ func emptyMemberClass(members []string) string {
 		}
 	}
 	return ""
+}
+
+// reachStep: every element of a small collection is looked up; of a large one
+// (size-boundary family) about 128 evenly spaced ones.
+func reachStep(n int) int {
+	if n <= 256 {
+		return 1
+	}
+	return n / 128
+}
+
+var bigLimit = int64(rockredis.MAX_BATCH_NUM)
+
+func (r *runner) identBig(tk touchKey, bad func(string, string, ...interface{}) *identFail, ev func(string, bool)) (*identFail, int64, bool) {
+	t, k := tk.t, tk.k
+	sizeCmd := map[string]string{"hash": "hlen", "set": "scard", "zset": "zcard", "list": "llen"}[tk.typ]
+	n, ok := asInt(r.rd(sizeCmd, t, k))
+	if !ok || n <= bigLimit {
+		return nil, 0, false
+	}
+	ev("keyexist", true)
+	if ex, _ := asInt(r.rd(tk.typ[:1]+"keyexist", t, k)); ex != 1 {
+		return bad(tk.typ[:1]+"keyexist-vs-size", "%sKEYEXIST=%d but size=%d", tk.typ[:1], ex, n), n, true
+	}
+	if tk.typ == "list" {
+		ev("llen=lrange-windows", true)
+		total := int64(0)
+		for from := int64(0); from < n+bigLimit; from += bigLimit {
+			es, ok := asList(r.rd("lrange", t, k, strconv.FormatInt(from, 10), strconv.FormatInt(from+bigLimit-1, 10)))
+			if !ok {
+				return bad("enumeration-reply", "LRANGE window at %d did not answer an array", from), n, true
+			}
+			total += int64(len(es))
+			if len(es) == 0 {
+				break
+			}
+		}
+		if total != n {
+			return bad("llen-vs-lrange", "LLEN=%d but the LRANGE windows hold %d", n, total), n, true
+		}
+		return nil, n, true
+	}
+	stride := 2
+	if tk.typ == "set" {
+		stride = 1
+	}
+	which := tk.typ[:1] + "scan-total"
+	ev(which, true)
+	tot, msg := r.scanAll(tk.typ[:1]+"scan", t, k, stride)
+	if msg != "" {
+		return bad(which, "scan chain: %s", msg), n, true
+	}
+	if int64(tot) != n {
+		return bad(which, "the scan chain returns %d elements in total but the size is %d", tot, n), n, true
+	}
+	return nil, n, true
 }
